@@ -31,7 +31,17 @@ import (
 // the expectation names a terminal / end of input / named alternative that was
 // really tried at p and produced no result there.
 
-func c06Specs(tier string) []spaceSpec { return c04Specs(tier) }
+// c06Specs: C04's spaces without SuppressError/Single (a grammar that suppresses its errors on purpose cannot be
+// held to "the expectation is one that really failed there").
+func c06Specs(tier string) []spaceSpec {
+	var out []spaceSpec
+	for _, s := range c04Specs(tier) {
+		if s.sp.Alpha.Name != fullAll.Name {
+			out = append(out, s)
+		}
+	}
+	return out
+}
 
 var nlMap = map[byte]byte{'b': '\n'}
 
